@@ -35,7 +35,16 @@ pub enum Cmd {
     /// no command name: status of the last command substitution in the words, in the redirections,
     /// in the assignments
     Absent(Option<u32>, Option<u32>, Option<u32>),
-    Call(&'static str),
+    /// command name and number of arguments
+    Call(&'static str, u32),
+    /// `set -- w1 … wn`
+    SetParams(u32),
+    /// `typeset -fr name`
+    Freeze(&'static str),
+    /// `for v do … done`: one iteration per positional parameter
+    ForPos(List),
+    /// `for ro in w1 … wn`: the loop variable is read-only
+    ForRo(u32),
     Unknown,
     Tick(u32, u32),
     Group(List),
@@ -114,7 +123,12 @@ fn sx_cmd(c: &Cmd) -> String {
             let f = |x: &Option<u32>| x.map_or("-".to_string(), |n| n.to_string());
             format!("(abs {} {} {})", f(w), f(r), f(a))
         }
-        Cmd::Call(n) => format!("(call {})", sx_name(n)),
+        Cmd::Call(n, 0) => format!("(call {})", sx_name(n)),
+        Cmd::Call(n, k) => format!("(call {} {k})", sx_name(n)),
+        Cmd::SetParams(k) => format!("(setp {k})"),
+        Cmd::Freeze(n) => format!("(freeze {})", sx_name(n)),
+        Cmd::ForPos(b) => format!("(forpos {})", sx_list(b)),
+        Cmd::ForRo(k) => format!("(forro {k})"),
         Cmd::Unknown => "(unk)".into(),
         Cmd::Tick(c, k) => format!("(tick {c} {k})"),
         Cmd::Group(l) => format!("(grp {})", sx_list(l)),
@@ -292,7 +306,12 @@ fn to_cmd(x: &Sx) -> Option<Cmd> {
             };
             Cmd::Absent(f(&v[1])?, f(&v[2])?, f(&v[3])?)
         }
-        ("call", 2) => Cmd::Call(name(&v[1])?),
+        ("call", 2) => Cmd::Call(name(&v[1])?, 0),
+        ("call", 3) => Cmd::Call(name(&v[1])?, num(&v[2])?),
+        ("setp", 2) => Cmd::SetParams(num(&v[1])?),
+        ("freeze", 2) => Cmd::Freeze(name(&v[1])?),
+        ("forpos", 2) => Cmd::ForPos(to_list(&v[1])?),
+        ("forro", 2) => Cmd::ForRo(num(&v[1])?),
         ("unk", 1) => Cmd::Unknown,
         ("tick", 3) => Cmd::Tick(num(&v[1])?, num(&v[2])?),
         ("grp", 2) => Cmd::Group(to_list(&v[1])?),
@@ -438,7 +457,7 @@ impl Render {
         }
     }
     fn empty_word(&mut self) {
-        let w = *self.rng.pick(&["$(st 3)", "$(st 0)", "`st 7`", "$unset_e", "\"$@\"", "$(exit 9)", "$(st 3)$(st 0)", "$(st 0)$(st 5)"]);
+        let w = *self.rng.pick(&["$(st 3)", "$(st 0)", "`st 7`", "$unset_e", "$(exit 9)", "$(st 3)$(st 0)", "$(st 0)$(st 5)"]);
         self.out.push(' ');
         self.out.push_str(w);
     }
@@ -531,7 +550,51 @@ impl Render {
                 let v: Vec<String> = w.iter().map(|s| s.to_string()).collect();
                 self.simple(&v)
             }
-            Cmd::Call(n) => self.simple(&[n.to_string()]),
+            Cmd::Call(n, k) => {
+                let mut w = vec![n.to_string()];
+                for _i in 0..*k {
+                    // every argument is one positional parameter, empty ones and blanks included
+                    w.push((*self.rng.pick(&["a", "b c", "", "*", "$unset_e'q'"])).to_string());
+                }
+                self.out.push_str(&w[0]);
+                for a in &w[1..] {
+                    self.out.push(' ');
+                    match a.as_str() {
+                        "" => self.out.push_str("''"),
+                        "b c" => self.out.push_str("\"b c\""),
+                        "*" => self.out.push_str("'*'"),
+                        x => self.out.push_str(x),
+                    }
+                }
+            }
+            Cmd::SetParams(k) => {
+                self.out.push_str("set --");
+                for i in 0..*k {
+                    write!(self.out, " p{i}").unwrap();
+                }
+            }
+            Cmd::Freeze(n) => self.simple(&["typeset".into(), "-fr".into(), n.to_string()]),
+            Cmd::ForPos(b) => {
+                self.out.push_str(*self.rng.pick(&["for v", "for v", "for v in \"$@\""]));
+                if self.out.ends_with('v') && self.rng.chance(1, 2) {
+                    self.out.push('\n');
+                } else if self.out.ends_with('v') {
+                    self.out.push(' ');
+                } else {
+                    self.out.push_str("; ");
+                }
+                self.out.push_str("do");
+                self.opt_nl();
+                self.list_term(b);
+                self.out.push_str("done");
+            }
+            Cmd::ForRo(k) => {
+                self.out.push_str("for ro in");
+                for i in 0..*k {
+                    write!(self.out, " w{i}").unwrap();
+                }
+                self.out.push_str("; do probe 76; done");
+            }
             Cmd::Unknown => self.simple(&["no_such_command_xyz".into()]),
             Cmd::Tick(c, k) if self.real => {
                 // the shell-function `tick` takes the bound in unary
@@ -787,7 +850,7 @@ impl Gen {
                 1 => Cmd::St(1 + (r as u32 % 3)),
                 2 => Cmd::Exit(Some(r as u32 % 4)),
                 3 => Cmd::Unknown,
-                4 => Cmd::Call(":"),
+                4 => Cmd::Call(":", 0),
                 _ => Cmd::St(2),
             };
         }
@@ -819,13 +882,15 @@ impl Gen {
                     self.defined.iter().copied().filter(|r| *r < self.call_limit.min(CALLABLE)).collect();
                 if self.rng.chance(1, 16) {
                     // a name with a slash: always an external utility, whatever is defined
-                    Cmd::Call("/bin/xtin")
+                    Cmd::Call("/bin/xtin", 0)
                 } else if self.call_limit == 0 || self.rng.chance(1, 8) {
-                    Cmd::Call(":")
+                    Cmd::Call(":", 0)
                 } else if !callable.is_empty() && self.rng.chance(4, 5) {
-                    Cmd::Call(NAMES[*self.rng.pick(&callable)])
+                    let k = if self.rng.chance(1, 2) { 0 } else { self.rng.below(4) as u32 };
+                    Cmd::Call(NAMES[*self.rng.pick(&callable)], k)
                 } else {
-                    Cmd::Call(NAMES[self.rng.below(self.call_limit.min(CALLABLE))])
+                    let k = if self.rng.chance(2, 3) { 0 } else { self.rng.below(3) as u32 };
+                    Cmd::Call(NAMES[self.rng.below(self.call_limit.min(CALLABLE))], k)
                 }
             }
             85..=86 => Cmd::Unknown,
@@ -836,7 +901,13 @@ impl Gen {
                 let a = o(self);
                 Cmd::Absent(w, r, a)
             }
-            88..=89 => Cmd::SetE(self.rng.chance(1, 2)),
+            88 => Cmd::SetE(self.rng.chance(1, 2)),
+            89 => match self.rng.below(4) {
+                0 => Cmd::SetE(self.rng.chance(1, 2)),
+                1 | 2 => Cmd::SetParams(self.rng.below(4) as u32),
+                // not `ok` (a function in the real-binary prologue), `:` or the slash name
+                _ => Cmd::Freeze(*self.rng.pick(&["f0", "f1", "f2", "sbin", "sbout", "xtin"])),
+            },
             90 => Cmd::SetM(self.rng.chance(2, 3)),
             _ => {
                 // a command whose status changes from one execution to the next
@@ -900,7 +971,7 @@ impl Gen {
                     self.counter += 1;
                     Cmd::Tick(self.counter, self.rng.below(3) as u32)
                 }
-                _ => Cmd::Call(":"),
+                _ => Cmd::Call(":", 0),
             };
             vec![Item(Pipeline(self.rng.chance(1, 6), vec![c]), vec![])]
         }
@@ -959,7 +1030,11 @@ impl Gen {
                 self.loop_depth += 1;
                 let b = self.list(d, 3);
                 self.loop_depth -= 1;
-                Cmd::For(self.rng.below(4) as u32, b)
+                match self.rng.below(8) {
+                    0 | 1 => Cmd::ForPos(b),
+                    2 if self.errors => Cmd::ForRo(self.rng.below(3) as u32),
+                    _ => Cmd::For(self.rng.below(4) as u32, b),
+                }
             }
             8 | 9 => {
                 let mut items = vec![];
